@@ -33,6 +33,8 @@ ENTRY = dict(
             "chains of two filters": "theorem (chain_delivered, chain_throttle_spacing, holds_chain)",
             "tolerance 0.1 = source constant": "theorem over the translated constant (tolerance_is_one_tenth)",
             "values are snapshots: a container changed in place by its owner and passed again as the same object": "correspondence (mode `inplace`: ONE list / dict object, empty when first delivered or cleared later, singleton, nested list of lists / dict of lists, changed by clear / append / del / item and slice assignment and passed again; every filter and chains; the model sees the content at the time of each call). Flat containers: holds; an INNER container changed in place: open finding F10 (shallow copy)",
+            "a live Parameter changed by its owner between deliveries (Parameter.update by a report, the real Parameter.set() by the client)": "correspondence (section setapi: one real Number parameter on a stub device, "
+                "set() run as a task up to its first sleep / through its retries, reports confirming, stale or moving the bounds; on_change / debounce / custom; machine and judge C20.spec on the parameter states observed at the calls)",
             "filters.py behaves as the machines": "correspondence (generated sequences; judge C20.spec on every implementation run)",
             "numbers as binary64 doubles, every magnitude": "theorem (C20F64: onChange_law / debounce_law / delta_law over ALL sequences of finite doubles with math.isclose as CPython computes it, "
                 "for whatever rel_tol / abs_tol the translator reads from the call in filters.py; C20F64Pin: relTol_is_zero pins rel_tol = 0 for the current source, hence changed_is_exceeds — for all doubles "
